@@ -136,6 +136,32 @@ def writer_campaign(tier: str, seed: int, *, sims=None, n_beh=None, hist_len=Non
                 case.replay = {"cfg": {k: v for k, v in cfg.items()}, "statements": stmts, "namespaces": ns_unique}
                 cases.append(case)
 
+    # long deterministic workloads that wrap tables of 128 / 256 / 4096 entries (ids crossing the one-byte varint limit and the 4096 cap)
+    def workload(n_names, n_pfx, n_dt, n, quads):
+        out = []
+        for i in range(n):
+            st = (("iri", f"http://p{i % n_pfx}.example/ns/n{i % n_names}"), ("iri", f"http://p{(i * 7) % n_pfx}.example/ns/n{(i * 3 + 1) % n_names}"),
+                  (("lit", str(i % 5), "", f"http://dt.example/t{i % n_dt}") if i % 3 == 0 else ("iri", f"http://p{(i + 1) % n_pfx}.example/ns/n{(i * 5 + 2) % n_names}")))
+            out.append(st + (((("iri", f"http://g.example/{i % 3}") if i % 4 else ("dg",)),) if quads else ()))
+        return out
+
+    big = [((128, 16, 4), 140, 20, 6, 600), ((256, 128, 32), 300, 140, 40, 900), ((4096, 150, 32), 4300, 170, 40, 4600)]
+    if tier == "thorough":
+        big += [((129, 127, 128), 200, 130, 140, 900), ((4095, 4096, 4096), 4200, 300, 50, 4500)]
+    for bi_, (preset_, nn, npf, nd, n_) in enumerate(big):
+        for quads in (False, True):
+            stmts = workload(nn, npf, nd, n_, quads)
+            cfg = impl.default_cfg(integ="generic", entry="flat_to_file", sclass=("quad" if quads else "triple"), ltype=(2 if quads else 1),
+                                   frame_size=(250 if bi_ % 2 == 0 else 37), preset=preset_, gen=False, star=False)
+            case = Case({"universe": f"long-{preset_[0]}-{preset_[1]}-{preset_[2]}", "entry": "flat_to_file", "sub": "none", "delimited": True,
+                         "frame_size": cfg["frame_size"], "as_sink": False, "beh": bi_}, stmts)
+            try:
+                case.data = impl.serialize(cfg, stmts)
+            except Exception as ex:  # noqa: BLE001
+                case.exc = f"{type(ex).__name__}: {ex}"
+            case.replay = {"cfg": cfg, "workload": {"names": nn, "prefixes": npf, "datatypes": nd, "statements": n_, "quads": quads}}
+            cases.append(case)
+
     # decode with our own codec, judge with TLC, parse back with pyjelly
     traces = []
     for i, case in enumerate(cases):
